@@ -37,6 +37,28 @@ def crafted_setup(kind):
                 p.max_substream_id = max(0, p.max_substream_id + ds)
                 if df < 0: p.supported_functions &= ~2
                 elif df > 0: p.supported_functions |= 0x100000
+            if kind.startswith("con-req"):
+                # a client that ignores the lowered SYN ack: its CONNECT request asks for more than the server supports
+                _, dm, ds, df = kind.split(":")
+                if tx.src != ps.SERVER and p.type == 1 and not p.flags & 1:
+                    delta(p, int(dm), int(ds), int(df))
+                    p.signature = enc.calc_packet_signature(p, b"", enc.calc_connection_signature(tx.src))
+                    net.inject(tx.src, tx.dst, enc.encode(p), 0.004)
+                    return []
+                return orig_fate(tx)
+            if kind.startswith("data-beyond"):
+                # a peer that does not conform: correctly signed reliable DATA on a substream above the negotiated maximum (but within
+                # what the receiver was configured with)
+                k = int(kind.split(":")[1])
+                if tx.src != ps.SERVER and p.type == 2 and not p.flags & 1 and p.flags & 2 and "done" not in mitm:
+                    mitm["done"] = True
+                    import copy
+                    q = copy.copy(p)
+                    q.substream_id, q.packet_id, q.fragment_id, q.payload = k, 1, 0, b"beyond"
+                    q.signature = enc.calc_packet_signature(q, b"", enc.calc_connection_signature(tx.src))   # the receiver verifies with the signature of ITS peer's address
+                    net.inject(tx.src, tx.dst, enc.encode(q), 0.002)
+                    out.beyond = k
+                return orig_fate(tx)
             if kind.startswith("late-syn"):
                 _, target, dm, ds, df = kind.split(":")
                 if tx.src == ps.SERVER and p.type == 0 and p.flags & 1:
@@ -198,6 +220,13 @@ def work(args):
             cfg = ps.Cfg(version=1, max_substream=2, minor_version=3, supported_functions=0x0F, resend_limit=1, resend_timeout=0.5)
             cfgs = ps.Cfg(version=1, max_substream=2, minor_version=3, supported_functions=0x0F, resend_limit=1, resend_timeout=0.5)
             script = [[("c", 0, b"ping")]]
+            if c.startswith(("con-req", "data-beyond")):
+                # the client offers more than the server supports: the meet is the server's configuration (3, 1, 0x06)
+                cfg = ps.Cfg(version=1, max_substream=3, minor_version=6, supported_functions=0xFF, resend_limit=1, resend_timeout=0.5)
+                cfgs = ps.Cfg(version=1, max_substream=1, minor_version=3, supported_functions=0x06, resend_limit=1, resend_timeout=0.5)
+            if c.startswith("data-beyond"):
+                cfg, cfgs = cfgs, cfg            # the RECEIVER (server) is configured with more substreams than were negotiated
+                script = [[("c", 0, b"ping"), ("s", 0, b"pong")], [("c", 1, b"last")]]
             if c.startswith("late-syn"):
                 script = [[("c", 0, b"ping")], [(side, sub, b"after:%d" % sub + side.encode()) for sub in range(3) for side in "cs"]]
             setup = crafted_setup(c)
@@ -255,6 +284,36 @@ def work(args):
                 # control: a re-signed but unchanged ack must be accepted (the crafting itself is sound)
                 if not connected:
                     bad.append("re-signed unchanged %s was refused: %s" % (c, sess.connect_error))
+            elif c.startswith("con-req"):
+                dm, ds, df = (int(x) for x in c.split(":")[1:])
+                # whatever the request asks for beyond the server's configuration must be refused by the server; a request that was
+                # altered at all cannot complete either (the client checks the echo)
+                if any(x > 0 for x in (dm, ds, df)) and sess.handler_started:
+                    bad.append("the server (configured (3, 1, 0x06)) created a connection for a CONNECT request exceeding its configuration (%s): it reports %r" % (c, psv))
+                if connected:
+                    bad.append("a handshake whose CONNECT request was altered (%s) completed: client reports %r, server %r" % (c, pc, psv))
+            elif c.startswith("data-beyond"):
+                k = int(c.split(":")[1])
+                obs = ps.Observer(sess.settings, cfg)
+                if not connected:
+                    bad.append("handshake failed in the %s scenario: %s" % (c, sess.connect_error))
+                elif pc != (3, 1, 0x06) or psv != (3, 1, 0x06):
+                    bad.append("%s: client reports %r, server %r, expected (3, 1, 6)" % (c, pc, psv))
+                elif k == 1:
+                    # control: the same crafted packet on a negotiated substream IS accepted (the crafting is sound)
+                    t_inj = min([e[2] for e in sess.netlog if e[0] == "inject"] or [0])
+                    acks = [e for e in sess.netlog if e[0] == "tx" and e[3] == ps.SERVER and e[2] < t_inj + 0.2
+                            and any(q_.type == 2 and q_.flags & 1 and q_.substream_id == 1 for q_ in obs.decode(e[5]))]
+                    if not acks:
+                        bad.append("control: a correctly signed DATA packet on the negotiated substream 1 was not acknowledged (the crafted packet of the data-beyond cases is unsound)")
+                else:
+                    for e in sess.netlog:
+                        if e[0] == "tx" and e[3] == ps.SERVER:
+                            for pk_ in obs.decode(e[5]):
+                                if pk_.type == 2 and pk_.flags & 1 and pk_.substream_id == k:
+                                    bad.append("the receiver (configured with 4 substreams, 2 negotiated) acknowledged reliable DATA on substream %d, above the negotiated maximum 1" % k)
+                    if sess.got.get(("s", 1)) != [b"last"] or sess.got.get(("s", 0)) != [b"ping"]:
+                        bad.append("%s: genuine traffic after the out-of-range packet was disturbed: %r" % (c, {kk: v for kk, v in sess.got.items() if kk[0] == "s"}))
             elif c.startswith("late-syn"):
                 # the negotiation is fixed by the handshake: a later, correctly signed SYN ack with other values changes nothing
                 want = (3, 2, 0x0F)
@@ -323,6 +382,10 @@ def cases(rng, quick):
                 for df in (-1, 0, 1):
                     if (dm, ds, df) != (0, 0, 0):
                         out.append(("crafted", "%s:%d:%d:%d" % (which, dm, ds, df), None))
+    for d in ((1, 0, 0), (0, 1, 0), (0, 0, 1), (1, 1, 1), (3, 2, 1), (1, -1, 0), (-1, 1, 0), (0, -1, 1), (-1, 0, 0), (0, -1, 0)):
+        out.append(("crafted", "con-req:%d:%d:%d" % d, None))
+    for k in (1, 2, 3):
+        out.append(("crafted", "data-beyond:%d" % k, None))
     for target in "cs":
         for d in ((-1, 0, 0), (0, -1, 0), (0, 0, -1), (-1, -1, -1), (-3, -2, 0)):
             out.append(("crafted", "late-syn:%s:%d:%d:%d" % ((target,) + d), None))
@@ -340,7 +403,7 @@ def run(ctx):
     cs = cases(ctx.rng, quick)
     ctx.rule = ("handshakes between real endpoints for (minor 0..6) x (max substream 0..3) x (function mask in {0,1,0x0F,0xA5A5A5,0xFFFFFF}) "
                 "for client and server (all 19600 pairs in the thorough tier; every triple on both sides + corners in quick), all 9 prudp.version "
-                "pairs, lite (also with max_substream_id > 0 on either side), 9 + 52 crafted SYN/CONNECT acks (every combination of lowering / keeping / raising the three parameters; contradicting SYN acks sent to either side after the handshake), and sequences of 3..6 clients of different capabilities (weak ones first, v0 among them) visiting one "
+                "pairs, lite (also with max_substream_id > 0 on either side), 9 + 52 crafted SYN/CONNECT acks (every combination of lowering / keeping / raising the three parameters; contradicting SYN acks sent to either side after the handshake; CONNECT requests altered to exceed the server's configuration; correctly signed DATA on a substream above the negotiated maximum), and sequences of 3..6 clients of different capabilities (weak ones first, v0 among them) visiting one "
                 "dual-stack server port with interleaved handshakes (each must negotiate the meet of its own and the server's configuration); each UDP session is replayed through the Lean L1 model (every datagram byte- and "
                 "tick-exact); distinct non-trivial = distinct (kind, client, server) configurations")
     jobs = [(i, k, c, s, ctx.rng.getrandbits(32)) for i, (k, c, s) in enumerate(cs)]
